@@ -97,6 +97,9 @@ class AbsEval(ConstEval):
             return True
         return super().truth(v)
 
+    def definite_raise(self, cls, text):
+        raise AbsRaise(cls, text)
+
     def branch(self, term, node):
         """truth value of a condition on abstract values: decided by the oracle of the caller (a valuation of the predicates it enumerates),
         otherwise the evaluation stops with SymbolicBranch"""
@@ -196,7 +199,10 @@ class AbsEval(ConstEval):
                 if base.cls_key is not None:
                     m = self.M.find_method(base.cls_key, e.attr)
                     if m is not None and m.kind == "property":
-                        return self.call_func(FuncRef(m.mod, m.node), [base])
+                        v_ = self.call_func(FuncRef(m.mod, m.node), [base])
+                        if m.memo:
+                            base.attrs[e.attr] = v_  # cached_property: the value lands in the instance dictionary and shadows the descriptor from now on
+                        return v_
                     if m is not None:
                         return ("boundfunc", base, m)
                     cn, ck = self.M.find_const(base.cls_key, e.attr)
@@ -212,6 +218,8 @@ class AbsEval(ConstEval):
                 raise AbsRaise("AttributeError", f"{t or 'value'} {base!r} has no attribute {e.attr}")
             if base is None:
                 raise AbsRaise("AttributeError", f"None has no attribute {e.attr}")
+            if isinstance(base, Opaque) and base.what == "external math":
+                return super().eval(e, env, mod)
             if isinstance(base, Opaque) and (base.what.startswith("external") or "_LOGGER" in base.what or "getLogger" in base.what):
                 return Opaque(f"external {e.attr}")
             return super().eval(e, env, mod)
@@ -428,7 +436,7 @@ class AbsEval(ConstEval):
                         raise AbsRaise(type(ex).__name__, str(ex))
                 if isinstance(base, str) and e.func.attr == "join":
                     return Res("join", base, *args)
-        if name in ("isinstance", "hasattr", "getattr", "next", "iter", "cast", "float", "int", "str", "round", "len", "bool", "abs", "datetime", "Decimal", "min", "max", "any", "all", "list", "tuple", "type", "divmod", "pow", "hash", "bytes", "bytearray"):
+        if name in ("isinstance", "hasattr", "getattr", "next", "iter", "cast", "float", "int", "str", "round", "len", "bool", "abs", "datetime", "Decimal", "min", "max", "any", "all", "list", "tuple", "type", "divmod", "pow", "hash", "bytes", "bytearray", "memoryview"):
             f = None
             if isinstance(e.func, ast.Name) and (e.func.id in env):
                 f = env[e.func.id]
@@ -537,6 +545,11 @@ class AbsEval(ConstEval):
 
     def builtin(self, name, args, kw, node):
         a0 = args[0] if args else None
+        if name == "memoryview" and len(args) == 1 and not kw:
+            # read-only view: indexing, slicing and len() agree with the viewed object
+            if isinstance(a0, (tuple, list, bytes, bytearray, ABytes)):
+                return tuple(a0) if isinstance(a0, list) else bytes(a0) if isinstance(a0, bytearray) else a0
+            raise NotConstant("memoryview of a value that is not an octet string")
         if name in ("bytes", "bytearray") and self.__dict__.get("abstract_bytes") and not kw:
             # octet strings with abstract elements are lists (bytearray) / tuples (bytes) of octet values
             if not args:
